@@ -279,30 +279,42 @@ theorem C14_read_stream_ok_complete (C : Codec) (F : Flags) (hR : F.strictR = tr
         have hin := (offsetOk_iff _ _).mp hok
         have hr : r = sendAllThen (normalize cs (skipBytes off.toNat (vstart C d 13 s).1)) failAt (vstart C d 13 s).2 := by
           simp [r, readS, hl, hok]
-        rw [hr] at hres ⊢
-        unfold sendAllThen at hres ⊢
         by_cases hf : failAt = 0 ∨ (normalize cs (skipBytes off.toNat (vstart C d 13 s).1)).length < failAt
-        · simp only [hf, if_true] at hres ⊢
-          have hv := vstart_ok C d 13 s (vstart C d 13 s).1 (by rw [← hres])
+        · have hr2 : r = { sent := normalize cs (skipBytes off.toNat (vstart C d 13 s).1), res := (vstart C d 13 s).2 } := by
+            rw [hr]; unfold sendAllThen; simp only [hf, if_true]
+          rw [hr2] at hres
+          have hres' : (vstart C d 13 s).2 = none := hres
+          have hv := vstart_ok C d 13 s (vstart C d 13 s).1 (by rw [← hres'])
           refine ⟨hv.1, hv.2.2, hin.1, hin.2, ?_, fun h => by cases h⟩
           intro _
+          rw [hr2]
           refine ⟨rfl, ?_, fun k hk => normalize_mem cs hcs _ k hk⟩
-          simp only [normalize_flatten cs hcs, skipBytes_flatten, hv.2.1]
-        · simp [hf] at hres
+          show (normalize cs (skipBytes off.toNat (vstart C d 13 s).1)).flatten = _
+          rw [normalize_flatten cs hcs, skipBytes_flatten, hv.2.1]
+        · have hr2 : r.res = some (eInjected 14) := by
+            rw [hr]; unfold sendAllThen; simp only [hf, if_false]
+          rw [hr2] at hres; cases hres
     | zstd =>
       cases hok : offsetOk d.size off with
       | false => simp [r, readS, hl, hok, hR] at hres
       | true =>
         have hin := (offsetOk_iff _ _).mp hok
-        simp only [r, readS, hl, hok, hR] at hres ⊢
-        simp only [ne_eq, not_true_eq_false, if_false, Bool.not_true, Bool.false_eq_true, and_false, if_true] at hres ⊢
-        by_cases hc : normalize cs (skipBytes off.toNat (vstart C d 13 s).1) = [] ∧ ¬ (vstart C d 13 s).2 = none
-        · simp only [hc, not_false_eq_true, and_self, if_true] at hres
+        by_cases hc : normalize cs (skipBytes off.toNat (vstart C d 13 s).1) = [] ∧ (vstart C d 13 s).2 ≠ none
+        · have hr2 : r = { res := (vstart C d 13 s).2 } := by
+            simp [r, readS, hl, hok, hR, hc]
+          rw [hr2] at hres
           exact absurd hres hc.2
-        · simp only [hc, if_false] at hres ⊢
-          have hv := vstart_ok C d 13 s (vstart C d 13 s).1 (by rw [← hres])
-          refine ⟨hv.1, hv.2.2, hin.1, hin.2, fun h => by cases h, fun _ => ?_⟩
-          simp only [normalize_flatten cs hcs, skipBytes_flatten, hv.2.1]
+        · have hr2 : r = { zdata := some (C.enc (normalize cs (skipBytes off.toNat (vstart C d 13 s).1)).flatten),
+                           res := (vstart C d 13 s).2 } := by
+            simp only [r, readS, hl, hok, hR]
+            simp [hc]
+          rw [hr2] at hres
+          have hres' : (vstart C d 13 s).2 = none := hres
+          have hv := vstart_ok C d 13 s (vstart C d 13 s).1 (by rw [← hres'])
+          refine ⟨hv.1, hv.2.2, hin.1, hin.2, (fun h => by cases h), fun _ => ?_⟩
+          rw [hr2]
+          show some (C.enc (normalize cs (skipBytes off.toNat (vstart C d 13 s).1)).flatten) = _
+          rw [normalize_flatten cs hcs, skipBytes_flatten, hv.2.1]
 
 /-- D6 in the model: the code as pinned ignores `read_offset` on the compressed path. -/
 theorem C14_read_legacy_ignores_offset (C : Codec) (F : Flags) (hR : F.strictR = false) (st : Store)
@@ -519,6 +531,18 @@ theorem legacy_client_get_counterexample :
       = .error (eSize 13) ∧
     clientGet C0 repaired 2 d0 (read C0 repaired [(d0, [1, 2, 3])] .zstd d0 0 0 2 0 none) = .ok [1, 2, 3] := by
   exact ⟨rfl, rfl⟩
+
+/-- streaming backend: a healthy medium is served completely; a medium failing after 2 of 3
+bytes ends in that error after a prefix (identity) resp. a compressed prefix (zstd), never OK -/
+example :
+    readS C0 repaired (.ok ⟨[[1, 2], [3]], none⟩) .identity d0 1 0 16 0 = { sent := [[2], [3]] } ∧
+    readS C0 repaired (.ok ⟨[[1, 2]], some (eInjected 14)⟩) .identity d0 0 0 16 0
+      = { sent := [[1, 2]], res := some (eInjected 14) } ∧
+    readS C0 repaired (.ok ⟨[[1, 2]], some (eInjected 14)⟩) .zstd d0 0 0 16 0
+      = { zdata := some [9, 1, 2], res := some (eInjected 14) } ∧
+    readS C0 repaired (.ok ⟨[[1, 2], [4]], none⟩) .zstd d0 0 0 16 0
+      = { zdata := some [9, 1, 2], res := some (eHash 13) } := by
+  exact ⟨rfl, rfl, rfl, rfl⟩
 
 /-- the roundtrip theorem's hypotheses hold for the toy codec -/
 example : (∀ x, C0.dec (C0.enc x) = (x, .clean)) ∧ Valid C0 d0 [1, 2, 3] := by
